@@ -6,6 +6,7 @@ import (
 	"sort"
 	"strconv"
 	"strings"
+	"time"
 
 	pbredis "github.com/samaritan-proxy/samaritan/pb/config/protocol/redis"
 	"github.com/samaritan-proxy/samaritan/proc/redis"
@@ -25,7 +26,8 @@ func init() { props["C14"] = func() hx.Prop { return &c14{rigs: map[string]*redi
 
 func (*c14) Rule() string {
 	return "command names: every supported name, the Redis command list, random names, names with non-ASCII bytes and runes that lower-case onto ASCII letters; each in lower/upper/mixed case, " +
-		"with 1..6 request elements, under the three read strategies on a 3-master/6-replica layout; through the real handleRequest on a socket-less processor. " +
+		"with 1..6 request elements, under the three read strategies on a 3-master/6-replica layout; through the real handleRequest on a socket-less processor; " +
+		"histories of read-strategy changes by configuration update with reads after each. " +
 		"Non-trivial = name outside the supported set, or mixed case, or read-only under a non-MASTER strategy; distinct by op line"
 }
 
@@ -140,10 +142,79 @@ func (c *c14) topo(f []string) string {
 	return strings.Join(parts, "")
 }
 
+// c14.strat <M|R|B>… a history of read strategies set by configuration updates (the first is the start-up strategy) on two masters, each
+// with a replica, the layout loaded once; after every change 30 GETs of keys in m0's slots
+//
+//	-> per strategy the classes of the nodes the reads went to (M owner, R its replica, X anything else), '|'-separated
+func (c *c14) strat(f []string) string {
+	if len(f) < 1 || len(f) > 8 {
+		return "bad-op"
+	}
+	sm := map[string]pbredis.ReadStrategy{"M": pbredis.ReadStrategy_MASTER, "R": pbredis.ReadStrategy_REPLICA, "B": pbredis.ReadStrategy_BOTH}
+	for _, s := range f {
+		if _, ok := sm[s]; !ok {
+			return "bad-op"
+		}
+	}
+	masters := []string{hx.NodeAddr(0), hx.NodeAddr(1)}
+	reps := []string{"r0:1", "r1:1"}
+	rig := hx.NewRig(2, sm[f[0]], reps...)
+	defer hx.DropScopes(rig.ScopeName())
+	var sb strings.Builder
+	fmt.Fprintf(&sb, "%040d %s@1 master - 0 0 1 connected 0-8191\n", 1, masters[0])
+	fmt.Fprintf(&sb, "%040d %s@1 master - 0 0 1 connected 8192-16383\n", 2, masters[1])
+	fmt.Fprintf(&sb, "%040d %s@1 slave %040d 0 0 1 connected\n", 10, reps[0], 1)
+	fmt.Fprintf(&sb, "%040d %s@1 slave %040d 0 0 1 connected\n", 11, reps[1], 2)
+	if err := rig.Refresh(&redis.RespValue{Type: redis.BulkString, Text: []byte(sb.String())}); err != nil {
+		return "refresh-failed"
+	}
+	var phases []string
+	ki := 0
+	for pi, s := range f {
+		if pi > 0 {
+			rig.SetConfig(hx.RedisConfig(sm[s], nil))
+		}
+		seen := map[string]bool{}
+		for n := 0; n < 30 && ki < 100000; ki++ {
+			key := []byte(fmt.Sprintf("t%d", ki))
+			if int(redis.VerifCrc16(redis.VerifHashtag(key)))&(redis.VerifSlotNum-1) > 8191 {
+				continue
+			}
+			n++
+			rig.Handle(hx.Bulks([]byte("get"), key))
+			sent := rig.Drain()
+			if len(sent) != 1 {
+				return "not-forwarded"
+			}
+			switch sent[0].Addr {
+			case masters[0]:
+				seen["M"] = true
+			case reps[0]:
+				seen["R"] = true
+			default:
+				seen["X"] = true
+			}
+			sent[0].Reply(&redis.RespValue{Type: redis.BulkString, Text: []byte("v")})
+			time.Sleep(50 * time.Microsecond) // the candidate is picked by the clock
+		}
+		ph := ""
+		for _, k := range []string{"M", "R", "X"} {
+			if seen[k] {
+				ph += k
+			}
+		}
+		phases = append(phases, ph)
+	}
+	return strings.Join(phases, "|")
+}
+
 func (c *c14) Exec(op string) string {
 	f := hx.Fields(op)
 	if len(f) >= 1 && f[0] == "c14.topo" {
 		return recoverStr(func() string { return c.topo(f[1:]) })
+	}
+	if len(f) >= 2 && f[0] == "c14.strat" {
+		return recoverStr(func() string { return c.strat(f[1:]) })
 	}
 	if len(f) != 4 || f[0] != "c14.cmd" {
 		return "bad-op"
@@ -255,6 +326,18 @@ func (c *c14) Gen(r *hx.Run) {
 				r.Do(fmt.Sprintf("c14.topo %s %s %s 40", st, a1, a2), a1 != a2, "topo")
 			}
 		}
+	}
+	// the read strategy changed by configuration updates, no slots refresh in between
+	for _, h := range []string{"R M", "B M", "M R", "M B", "R B M", "B R M R", "R M R M"} {
+		r.Do("c14.strat "+h, true, "strat")
+	}
+	for i := 0; i < r.N(10, 300); i++ {
+		n := 2 + rng.Intn(5)
+		var hs []string
+		for j := 0; j < n; j++ {
+			hs = append(hs, "MRB"[rng.Intn(3):][:1])
+		}
+		r.Do("c14.strat "+strings.Join(hs, " "), true, "strat")
 	}
 	casings := func(s string) []string {
 		mixed := []byte(s)
